@@ -159,8 +159,15 @@ def instances(tier):
             for rs_list in (True, False):
                 for ph in ("none", "unlisted") if rs_list else ("none",):
                     out.append(Instance("C01", "c01:u_mux", dict(k=k, form="const", phase=ph, rs_list=rs_list, offs=offs)))
-    from ..shapes import curated
+    from ..shapes import curated, pair_cover
     for sid, shape in curated().items():
         out.append(Instance("C01", "sys_common:s_run", dict(shape=shape, oracle="c01"), name="S/" + sid, uf=True,
                             cover=["solved"], weight=20, max_paths=3000))
+    if tier == "thorough":
+        for sid, shape in pair_cover().items():
+            out.append(Instance("C01", "sys_common:s_run", dict(shape=shape, oracle="c01"), name="S/pair/" + sid, uf=True,
+                                cover=["solved"], weight=15, max_paths=6000, time_limit=3000))
+        for sid, shape in pair_cover(pol="neg", src_only=()).items():
+            out.append(Instance("C01", "sys_common:s_run", dict(shape=shape, oracle="c01"), name="S/pair-neg/" + sid, uf=True,
+                                cover=["solved"], weight=15, max_paths=6000, time_limit=3000))
     return out, META
